@@ -11,7 +11,7 @@ LEVEL_TEXT = ("For every tree, style, childiter and maxlevel the Lean mirror of 
               "by the kernel); the shape is reconstructible from the row depths; str()/by_attr() lines are pre + first line, fill "
               "+ further lines, an empty value giving one line. Tied to /repo on all shapes up to 5 (thorough 6) nodes x 4+1 "
               "styles x 4 childiters x maxlevels, single/multi-line/empty values through attribute, list, tuple, callable and "
-              "repr selectors; Node/AnyNode/SymlinkNode reprs are compared with the mirrored assembly.")
+              "repr selectors; the Node/AnyNode/SymlinkNode repr assembly (class name, path, public attributes by exact-name black-list, sorted by name) is proved of the mirror (C09b) and compared with /repo.")
 LEVEL_NOTE = ("Trusted: Lean kernel, standard axioms; the mirror lean/Anytree/Model/Render.lean; str.splitlines() and repr() of "
               "attribute values are CPython's (lines and value reprs are handed to the model); childiter assumed to return "
               "children it was given.")
@@ -25,8 +25,14 @@ THEOREMS = [
     ("Anytree.Props.C09.decode_rows", "full"),
     ("Anytree.Props.C09.formatRow_spec", "full"),
     ("Anytree.Props.C09.formatRow_nonempty", "full"),
+    ("Anytree.Props.C09b.nodeRepr_shape", "full"),
+    ("Anytree.Props.C09b.mem_sortedShown", "full"),
+    ("Anytree.Props.C09b.sortedShown_perm", "full"),
+    ("Anytree.Props.C09b.sortedShown_sorted", "full"),
+    ("Anytree.Props.C09b.sortedShown_unique", "full"),
 ]
-NOT_COVERED = ["repr() of attribute values and str.splitlines() are CPython's: the Node/AnyNode/SymlinkNode repr assembly (class name, separator-joined path, public attributes sorted by name) is mirrored (Render.nodeRepr) and compared by the correspondence run, not proved against a specification"]
+MODULES = ['Anytree.Props.C09', 'Anytree.Props.C09b']
+NOT_COVERED = ["repr() of attribute values and str.splitlines() are CPython's (value reprs and lines are handed to the model as strings); the repr assembly itself is proved: exactly the public, not black-listed (exact name) attributes, each once, sorted by name, the order being determined when names are distinct (C09b)"]
 PREDICATE_SPEC = True
 RULE = ("all shapes up to N nodes (quick 5, thorough 6) x every start node, styles Ascii/Cont/ContRound/Double/custom equal-width, "
         "childiter in {list, reversed, sorted, filtering}, maxlevel in {None,0,1,2,3}, value modes {label, attribute, callable, "
@@ -111,6 +117,10 @@ def generate(tier, rng):
             for start in gen.tree_labels(t):
                 for _ in range(2 if tier == "quick" else 5):
                     yield mk(rng, t, start)
+    for sh in gen.big_shapes(rng, tier, 450):
+        t = gen.labelled(sh, rng, True)
+        dl = gen.deep_labels(t)
+        yield mk(rng, t, rng.choice([t[0], t[0], dl[len(dl) // 3]]))
     for _ in range(150 if tier == "quick" else 2500):
         t = gen.labelled(gen.random_shape(rng, rng.randrange(4, 13 if tier == "quick" else 31)), rng, True)
         yield mk(rng, t, rng.choice(gen.tree_labels(t)))
